@@ -108,6 +108,52 @@ func refStep(v interface{}, key string, assert bool) (interface{}, string) {
 			return m.N, "ok"
 		}
 		return nil, "unspec"
+	case spec.S3: // field k of the struct, by Go's own selectors
+		switch key {
+		case "Label":
+			return m.Label, "ok"
+		case "N":
+			return m.N, "ok"
+		case "Extra":
+			return m.Extra, "ok"
+		case "S2":
+			return m.S2, "ok"
+		}
+		return nil, "unspec"
+	case spec.S4:
+		switch key {
+		case "Label":
+			return m.Label, "ok"
+		case "N":
+			return m.N, "ok"
+		case "Deep":
+			return m.Deep, "ok"
+		case "S2":
+			return m.S2, "ok"
+		case "S5":
+			return m.S5, "ok"
+		case "S6":
+			return m.S6, "ok"
+		}
+		return nil, "unspec"
+	case spec.S5:
+		switch key {
+		case "Label":
+			return m.Label, "ok"
+		case "Deep":
+			return m.Deep, "ok"
+		case "S6":
+			return m.S6, "ok"
+		}
+		return nil, "unspec"
+	case spec.S6:
+		switch key {
+		case "Label":
+			return m.Label, "ok"
+		case "Deep":
+			return m.Deep, "ok"
+		}
+		return nil, "unspec"
 	}
 	// struct types synthesised per case (reflect.StructOf / anonymous structs): exported field by name
 	if rv := reflect.ValueOf(v); rv.Kind() == reflect.Struct {
@@ -603,4 +649,64 @@ func TestC16Grid(t *testing.T) {
 	}
 	run.Exhaustive()
 	_ = strings.Join
+}
+
+
+// TestC16Embedded: structs that embed structs. Field k of such a struct is what
+// Go's selector x.k denotes: the struct's own field before a promoted one, the
+// shallower promoted field before a deeper one.
+func TestC16Embedded(t *testing.T) {
+	data := map[string]spec.V{
+		"e3": {K: "emb3", S: "own", Z: "promoted"},
+		"e4": {K: "emb4", S: "shallow", Z: "deep"},
+		"m":  {K: "map", M: map[string]spec.V{"e3": {K: "emb3", S: "", Z: "promoted"}, "e4": {K: "emb4", S: "", Z: "deep"}}},
+		"N":  {K: "int", S: "1"},
+	}
+	keys := []string{"e3", "e4", "m", "Label", "N", "Extra", "Deep", "S2", "S5", "S6", "zz"}
+	run := h.Begin("C16", "embedded", fmt.Sprintf("bounded-exhaustive: structs with embedded structs (an own field shadowing a promoted one of the same name, the same name one and two levels down, a field promoted from two levels down; also inside a map, with empty strings) x every path root[.|!.]k1[.|!.]k2[.|!.]k3 over a %d-key universe, rooted at the bare name and at 'this'; oracle: Go's own selectors on the same values; non-trivial: the path reads Label, N or Deep of an embedding struct", len(keys)))
+	defer run.End(t)
+	var idx int64
+	try := func(c pathCase) {
+		idx++
+		if !h.Mine(idx) || run.NViolations() >= 3 {
+			return
+		}
+		c.Used = (idx/7)%2 == 1
+		msg, cls := checkPath(c)
+		if cls == "unspecified" {
+			run.Class("unspecified-skipped")
+			return
+		}
+		nt := false
+		if n := len(c.Steps); n > 0 {
+			last := c.Steps[n-1].Key
+			nt = (last == "Label" || last == "N" || last == "Deep") && (c.Root == "e3" || c.Root == "e4" || c.Root == "m")
+		}
+		run.Count(nt, cls)
+		if idx%397 == 0 {
+			run.Sample(cls, c.text())
+		}
+		if msg != "" {
+			run.Fail("c16", c, msg)
+		}
+	}
+	for _, this := range []bool{false, true} {
+		for _, root := range []string{"e3", "e4", "m"} {
+			for _, k1 := range keys {
+				for _, a1 := range []bool{false, true} {
+					try(pathCase{Data: data, This: this, Root: root, Steps: []pathStep{{k1, a1}}})
+					for _, k2 := range keys {
+						try(pathCase{Data: data, This: this, Root: root, Steps: []pathStep{{k1, a1}, {k2, !a1}}})
+						if root != "m" || (k1 != "e3" && k1 != "e4") {
+							continue
+						}
+						for _, k3 := range keys {
+							try(pathCase{Data: data, This: this, Root: root, Steps: []pathStep{{k1, a1}, {k2, false}, {k3, a1}}})
+						}
+					}
+				}
+			}
+		}
+	}
+	run.Exhaustive()
 }
